@@ -9,6 +9,17 @@ package internal
 //@ func Bprintf
 //@   inline
 
+// The kind helpers are switch tables over reflect.Kind; with a statically known type they fold to constants, so they
+// are verified through their bodies at each (monomorphised) call site.
+//@ func Kind
+//@   inline
+//@ func Max
+//@   inline
+//@ func IsFloat
+//@   inline
+//@ func IsSigned
+//@   inline
+
 // ---- shared specification functions: the proleptic Gregorian calendar ------------------------------------
 // Written from the property statements (C07, C09, C11), not from the code. Integers are mathematical.
 //@ pure func leap(y int) bool = fmod(y, 4) == 0 && (fmod(y, 100) != 0 || fmod(y, 400) == 0)
